@@ -109,7 +109,7 @@ def draw_faulty(rng, st, s, h, via):
     construct = h.kind == "M"
     nvdim = rng.choice([1, 2, 3]) if construct else h.fm.nvdim
     n = list(mm.n)
-    kinds = ["count", "count_arr", "shape", "str", "none", "object", "fn", "fn", "fn", "field"]
+    kinds = ["count", "count_arr", "shape", "shape_bcast", "str", "none", "object", "fn", "fn", "fn", "field"]
     if mm.subs:
         kinds.append("dict")
     k = rng.choice(kinds)
@@ -124,6 +124,14 @@ def draw_faulty(rng, st, s, h, via):
         o.update(why="wrong component count (array)", spec={"t": "raw", "v": {"ndarray": _nested([*n, nvdim + 1], 1.0)}})
     elif k == "shape":
         o.update(why="wrong array shape", spec={"t": "raw", "v": {"ndarray": _nested([*[i + 1 for i in n], nvdim], 2.0)}})
+    elif k == "shape_bcast":
+        # fewer axes than the mesh / a length-1 axis: numpy would silently broadcast it
+        shp = [n[-1], nvdim] if len(n) >= 2 else [1, nvdim]
+        if rng.random() < 0.4:
+            shp = [1] * len(n) + [nvdim]
+        if shp == [*n, nvdim] or (nvdim == 1 and shp == list(n)):
+            shp = [*[i + 1 for i in n], nvdim]  # (a scalar field also accepts an array of shape n)
+        o.update(why="wrong array shape (broadcastable)", spec={"t": "raw", "v": {"ndarray": _nested(shp, 2.0)}})
     elif k == "str":
         o.update(why="wrong type (str)", spec={"t": "raw", "v": "abc"})
     elif k == "none":
